@@ -29,6 +29,8 @@ WITNESSES = {'quick': ['success', 'user-failure', 'mkdir-fault', 'stale-target',
 CHAIN = ['a', 'a/b', 'a/b/c', 'a/b/c/t']
 UNI = ['a', 'a/t', 'a/b', 'a/b/z', 'a/b/c', 'a/b/c/t']
 MODES = ['ok', 'raise_before', 'raise_after', 'no_create', 'nonjson', 'raise_TypeError', 'raise_RuntimeError', 'raise_FileNotFoundError']
+SPECIAL_KEYS = [(float('nan'), 1), (-float('inf'), 2), (float('inf'), 3), (None, 4), (True, 5), (2, 6), (1.5, 7), ('s', 8)]
+SPECIAL_KEYS_JSON = {'NaN': 1, '-Infinity': 2, 'Infinity': 3, 'null': 4, 'true': 5, '2': 6, '1.5': 7, 's': 8}
 NONJSON_FALSY = {'nonjson_set': set, 'nonjson_bytes': bytes, 'nonjson_frozenset': frozenset, 'nonjson_range': lambda: range(0)}
 SPELL = ['abs', 'rel', 'dotdot', 'slashes']
 
@@ -40,7 +42,7 @@ def families(tier):
                                      'fault_excs': ['ValueError']}, 'weight': 1},
         {'name': 'fresh', 'params': {'target': 'a/t', 'modes': MODES, 'faults': [None, 'a']}, 'weight': 1},
         # return values that are not JSON but falsy (an empty set, b'', ...), and the empty tuple (JSON: normalised to [])
-        {'name': 'fresh', 'params': {'target': 'a/b/c/t', 'modes': sorted(NONJSON_FALSY) + ['ok_empty_tuple'], 'faults': [None]}, 'weight': 1},
+        {'name': 'fresh', 'params': {'target': 'a/b/c/t', 'modes': sorted(NONJSON_FALSY) + ['ok_empty_tuple', 'ok_special_keys'], 'faults': [None]}, 'weight': 1},
         {'name': 'stale', 'params': {'target': 'a/b/c/t', 'modes': sorted(NONJSON_FALSY) + ['ok_empty_tuple'], 'faults': [None],
                                      'mut_kinds': ['none', 'delete']}, 'weight': 1},
         # the target's own file name is over-long (every stat / open of it fails with ENAMETOOLONG)
@@ -129,6 +131,9 @@ class Run:
             return NONJSON_FALSY[self.mode]()
         if self.mode == 'ok_empty_tuple':
             return ()
+        if self.mode == 'ok_special_keys':
+            # every kind of dict key JSON stringifies (the float keys include both infinities and NaN)
+            return dict(SPECIAL_KEYS)
         return (1, (2, {'k': (3,)}))
 
     def root(self, b):
@@ -292,6 +297,9 @@ def harness(eng, fam, P):
             ret = oi['ret']
             if mode == 'ok_empty_tuple':
                 eng.check('C10.return-json-normalised', type(ret) is list and ret == [], sig, info={'ret': repr(ret)})
+            elif mode == 'ok_special_keys':
+                eng.check('C10.return-json-normalised', type(ret) is dict and sorted(ret.items()) == sorted(SPECIAL_KEYS_JSON.items()), sig,
+                          info={'ret': repr(ret), 'json': repr(SPECIAL_KEYS_JSON)})
             else:
                 eng.check('C10.return-json-normalised',
                           ret == [1, [2, {'k': [3]}]] and type(ret) is list and type(ret[1]) is list and
